@@ -316,32 +316,125 @@ func exprString(e ast.Expr) string { return types.ExprString(e) }
 
 // isCleanupVar: v is the local bound to the second result (the trailer-writing closure) of tarext.NewTapeWriter.
 func isCleanupVar(f *FuncInfo, v types.Object) bool {
+	return tapeWriterResult(f, v) == 1
+}
+
+// isNewTapeWriterCall: call is a call of the repository's tarext.NewTapeWriter.
+func isNewTapeWriterCall(info *types.Info, call *ast.CallExpr) bool {
+	fn, ok := calleeObj(info, call).(*types.Func)
+	return ok && fn.Name() == "NewTapeWriter" && inRepo(fn)
+}
+
+// tapeWriterPart classifies a type as one of the two things NewTapeWriter hands out: 0 the tar writer, 1 the
+// trailer-writing cleanup function, -1 neither.
+func tapeWriterPart(t types.Type) int {
+	if p, ok := t.(*types.Pointer); ok {
+		if n, ok := p.Elem().(*types.Named); ok && n.Obj().Pkg() != nil && n.Obj().Pkg().Path() == "archive/tar" && n.Obj().Name() == "Writer" {
+			return 0
+		}
+	}
+	if _, ok := t.Underlying().(*types.Signature); ok {
+		return 1
+	}
+	return -1
+}
+
+// tapeWriterResult: which result of tarext.NewTapeWriter the local variable v holds (0 tar writer, 1 cleanup, -1
+// neither). The constructor may return the two as separate results or bundled in a struct whose fields the caller
+// copies into locals (`tw, cleanup := w.Writer, w.Cleanup`).
+func tapeWriterResult(f *FuncInfo, v types.Object) int {
 	if v == nil {
-		return false
+		return -1
 	}
 	root := f
 	for root.Outer != nil {
 		root = root.Outer
 	}
 	info := root.Pkg.TypesInfo
-	found := false
+	res := -1
+	var bundleOf func(e ast.Expr) bool // e is a variable holding the struct returned by NewTapeWriter
+	bundleOf = func(e ast.Expr) bool {
+		o := objOfIdent(info, e)
+		if o == nil {
+			return false
+		}
+		ok := false
+		ast.Inspect(root.Body(), func(n ast.Node) bool {
+			as, isAs := n.(*ast.AssignStmt)
+			if !isAs || len(as.Rhs) != 1 || len(as.Lhs) == 0 || objOfIdent(info, as.Lhs[0]) != o {
+				return true
+			}
+			if call, isCall := ast.Unparen(as.Rhs[0]).(*ast.CallExpr); isCall && isNewTapeWriterCall(info, call) {
+				if _, isStruct := o.Type().Underlying().(*types.Struct); isStruct {
+					ok = true
+				}
+			}
+			return true
+		})
+		return ok
+	}
 	ast.Inspect(root.Body(), func(n ast.Node) bool {
 		as, ok := n.(*ast.AssignStmt)
-		if !ok || len(as.Rhs) != 1 || len(as.Lhs) < 2 {
-			return true
-		}
-		call, ok := ast.Unparen(as.Rhs[0]).(*ast.CallExpr)
 		if !ok {
 			return true
 		}
-		if fn, ok := calleeObj(info, call).(*types.Func); ok && fn.Name() == "NewTapeWriter" && inRepo(fn) {
-			if objOfIdent(info, as.Lhs[1]) == v {
-				found = true
+		for i, l := range as.Lhs {
+			if objOfIdent(info, l) != v {
+				continue
+			}
+			if len(as.Rhs) == 1 && len(as.Lhs) >= 2 {
+				if call, ok := ast.Unparen(as.Rhs[0]).(*ast.CallExpr); ok && isNewTapeWriterCall(info, call) && i < 2 {
+					res = i
+				}
+			}
+			if len(as.Rhs) == len(as.Lhs) {
+				if se, ok := ast.Unparen(as.Rhs[i]).(*ast.SelectorExpr); ok && bundleOf(se.X) {
+					if part := tapeWriterPart(v.Type()); part >= 0 {
+						res = part
+					}
+				}
 			}
 		}
 		return true
 	})
-	return found
+	return res
+}
+
+// tapeWriterVar: the local of f that holds result idx (0 tar writer, 1 cleanup) of the NewTapeWriter call `call`.
+func tapeWriterVar(f *FuncInfo, call *ast.CallExpr, idx int) types.Object {
+	info := f.Pkg.TypesInfo
+	var out types.Object
+	var bundle types.Object
+	walkOwn(f.Body(), func(nd ast.Node) {
+		as, ok := nd.(*ast.AssignStmt)
+		if !ok || len(as.Rhs) != 1 || ast.Unparen(as.Rhs[0]) != ast.Expr(call) {
+			return
+		}
+		if len(as.Lhs) >= 3 {
+			out = objOfIdent(info, as.Lhs[idx])
+		} else if len(as.Lhs) == 2 {
+			bundle = objOfIdent(info, as.Lhs[0])
+		}
+	})
+	if out != nil || bundle == nil {
+		return out
+	}
+	walkOwn(f.Body(), func(nd ast.Node) {
+		as, ok := nd.(*ast.AssignStmt)
+		if !ok || len(as.Rhs) != len(as.Lhs) {
+			return
+		}
+		for i, r := range as.Rhs {
+			se, ok := ast.Unparen(r).(*ast.SelectorExpr)
+			if !ok || objOfIdent(info, se.X) != bundle {
+				continue
+			}
+			if o := objOfIdent(info, as.Lhs[i]); o != nil && tapeWriterPart(o.Type()) == idx {
+				out = o
+			}
+		}
+	})
+	return out
 }
 
 // isSourceCallback: v is a parameter of function type returning (config.FileConfig, error) - the member source.
